@@ -817,7 +817,13 @@ def rule_alias_flag(run):
                     leaves.append("call:" + src(x.func))
                 elif isinstance(x, ast.Name) and not isinstance(pm.parents.of(x), ast.Attribute):
                     leaves.append(x.id)
-            bad = [l for l in leaves if not (l.endswith(".new_obj._maybe_uninitialized") or l in ("True", "False"))]
+            # the declared object = the object the alias takes its type from: Temporary[<obj>.type](...)
+            sl = a.value.func.slice if isinstance(a.value.func, ast.Subscript) else None
+            decl = (dotted(sl) or "")
+            decl = decl[:-len(".type")] if decl.endswith(".type") else None
+            if decl is None:
+                raise AnalysisError(f"{q}: alias type `{src(a.value.func)}` not of the form Temporary[<declared>.type]")
+            bad = [l for l in leaves if not (l == f"{decl}._maybe_uninitialized" or l in ("True", "False"))]
             # constant True would exempt every alias
             bad += [l for l in leaves if l == "True"]
             run.ob(not bad, q, file=pm.rel, line=a.lineno, detail="alias-flag", expected="maybe_uninitialized=<declared object>._maybe_uninitialized",
